@@ -10,6 +10,32 @@ from .common import where
 ROUTINES = ['minimization.calculate_ground_state_local_singlesite', 'minimization.calculate_ground_state_local_twosite']
 
 
+def inline_problem_rule(chk, repo, rid):
+    """local eigenproblems posed in line (not through _minimize_local_energy): same obligations per call site"""
+    n = 0
+    for q in ROUTINES:
+        fi = repo.func(q)
+        for c in [c for c in ast.walk(fi.node) if isinstance(c, ast.Call) and norm(c.func) == 'eigh_krylov']:
+            lam = c.args[0] if c.args else None
+            ok_lam, ten = False, None
+            if isinstance(lam, ast.Lambda) and len(lam.args.args) == 1 and len(c.args) >= 2:
+                x = lam.args.args[0].arg
+                b = pmatch(f'apply_local_hamiltonian(__L, __R, __W, {x}.reshape(__A.shape)).reshape(-1)', lam.body)
+                if b is not None:
+                    ok_lam, ten = True, b['__A']
+            chk.ob(rid, where(repo, fi, c), f'{fi.name}: in-line local eigenproblem: the operator is the effective Hamiltonian '
+                   f'acting on vectors of the shape of the current tensor', ok_lam, norm(lam)[:110] if lam is not None else '',
+                   key=f'{rid}|{q}|inline-operator|{norm(c)[:50]}')
+            ok_start = ok_lam and norm(c.args[1]) == f'{ten}.reshape(-1)'
+            chk.ob(rid, where(repo, fi, c), f'{fi.name}: in-line local eigenproblem is started from the current tensor', ok_start,
+                   norm(c.args[1]) if len(c.args) >= 2 else '', key=f'{rid}|{q}|inline-start|{norm(c)[:50]}')
+            ok_n = len(c.args) >= 4 and norm(c.args[3]) == '1'
+            chk.ob(rid, where(repo, fi, c), f'{fi.name}: one eigenpair (the lowest) is requested', ok_n, '',
+                   key=f'{rid}|{q}|inline-numeig|{norm(c)[:50]}')
+            n += 3
+    return n
+
+
 def start_vector_rule(chk, repo, rid):
     fi = repo.func('minimization._minimize_local_energy')
     calls = [c for c in ast.walk(fi.node) if isinstance(c, ast.Call) and norm(c.func) == 'eigh_krylov']
@@ -78,6 +104,16 @@ def energy_rule(chk, repo, rid, q):
                     last = n
     ok = last is not None and isinstance(last.value, ast.Call) and norm(last.value.func) == '_minimize_local_energy' \
         and norm(last.targets[0].elts[0]) == en if (last is not None and isinstance(last.targets[0], ast.Tuple)) else False
+    if not ok and last is not None and isinstance(last.value, ast.Subscript) and norm(last.value.slice) == '0' and \
+            isinstance(last.value.value, ast.Name):
+        # en = w[0] with (w, u) = eigh_krylov(...) posed in line: the lowest Ritz value of that local problem
+        wname = last.value.value.id
+        src = [n for s_ in o.body for n in ast.walk(s_) if isinstance(n, ast.Assign) and isinstance(n.value, ast.Call) and
+               norm(n.value.func) == 'eigh_krylov' and isinstance(n.targets[0], ast.Tuple) and
+               norm(n.targets[0].elts[0]) == wname and n.lineno <= last.lineno]
+        if src:
+            ok = True
+            last = src[-1]
     chk.ob(rid, where(repo, fi, st), f'{fi.name}: the energy recorded for a sweep is the Ritz value of the last local '
            f'problem of that sweep', ok, f'last definition: {norm(last)[:80] if last is not None else None}',
            key=f'{rid}|{q}|energy-last')
@@ -161,6 +197,7 @@ def run(chk, repo, tier):
         energy_rule(chk, repo, 'C10.R4', q)
         coverage_rule(chk, repo, 'C10.R6', q)
     start_vector_rule(chk, repo, 'C10.R2')
+    inline_problem_rule(chk, repo, 'C10.R2')
     from . import support
     support.kernel_rules(chk, repo, 'C10.R5', ['apply_local_hamiltonian', 'contraction_operator_step_left',
                                                'contraction_operator_step_right'])
